@@ -173,14 +173,17 @@ func main() {
 	sort.Strings(sigs)
 	knownSeen := []string{}
 	nViol := 0
+	var machinery []string
+	shrinkDeadline := time.Now().Add(240 * time.Second)
+	shrunk := 0
 	for _, s := range sigs {
 		f := agg.found[s]
 		if strings.HasPrefix(s, "harness:") {
-			fmt.Printf("MACHINERY-ERROR %s seed=%d: %s\n", s, f.seed, f.msg)
+			msg := fmt.Sprintf("%s seed=%d: %s", s, f.seed, f.msg)
 			if f.tsan != "" {
-				fmt.Println(f.tsan)
+				msg += "\n" + f.tsan
 			}
-			exit = 2
+			machinery = append(machinery, msg)
 			continue
 		}
 		if k := known.match(prop, s); k != nil && k.Status == "known" {
@@ -188,23 +191,34 @@ func main() {
 			knownSeen = append(knownSeen, s)
 			continue
 		}
-		// confirm in a fresh process, minimise, write the replay file
-		path, ok, err := confirmAndShrink(f, *replayDir)
+		// confirm in a fresh process, minimise (the first few; time-boxed), write the replay file
+		doShrink := shrunk < 6 && time.Now().Before(shrinkDeadline)
+		path, ok, err := confirmAndShrink(f, *replayDir, doShrink)
+		shrunk++
 		if err != nil {
-			fmt.Printf("MACHINERY-ERROR could not confirm %s (seed %d): %v\n", s, f.seed, err)
-			exit = 2
+			machinery = append(machinery, fmt.Sprintf("could not confirm %s (seed %d): %v", s, f.seed, err))
 			continue
 		}
 		if !ok {
-			fmt.Printf("MACHINERY-ERROR violation %s of seed %d did not reproduce in a fresh process (non-determinism in the harness)\n", s, f.seed)
-			exit = 2
+			machinery = append(machinery, fmt.Sprintf("violation %s of seed %d did not reproduce in a fresh process (non-determinism in the harness)", s, f.seed))
 			continue
 		}
 		nViol++
 		fmt.Printf("VIOLATION property=%s replay=%s\n", prop, path)
 		fmt.Printf("  signature: %s\n  seed: %d\n  %s\n", s, f.seed, firstLine(f.msg, 600))
-		if exit == 0 {
-			exit = 1
+		exit = 1
+	}
+	// machinery trouble (harness-internal race, deadlock in harness code,
+	// unconfirmed report): on its own it makes the check exit 2; next to
+	// confirmed violations it is reported as a note - a library change that
+	// shares memory between callers also makes the harness's own accesses to
+	// that memory race, which is a consequence, not a harness bug
+	for _, m := range machinery {
+		if nViol > 0 {
+			fmt.Printf("NOTE (machinery, next to confirmed violations): %s\n", firstLine(m, 400))
+		} else {
+			fmt.Printf("MACHINERY-ERROR %s\n", m)
+			exit = 2
 		}
 	}
 
@@ -713,7 +727,7 @@ func hasSig(r *runResult, races []found, sig string) (bool, string, string) {
 	return false, "", ""
 }
 
-func confirmAndShrink(f *found, dir string) (string, bool, error) {
+func confirmAndShrink(f *found, dir string, doShrink bool) (string, bool, error) {
 	if dir == "" {
 		dir = "."
 	}
@@ -732,7 +746,10 @@ func confirmAndShrink(f *found, dir string) (string, bool, error) {
 	tape := r.Tape
 	origLen := len(tape)
 	budgetRuns := 300
-	deadline := time.Now().Add(60 * time.Second)
+	deadline := time.Now().Add(40 * time.Second)
+	if !doShrink {
+		budgetRuns = 1
+	}
 	tries := 0
 	test := func(t []uint64) bool {
 		if tries >= budgetRuns || time.Now().After(deadline) {
